@@ -799,14 +799,7 @@ class Lane(LaneBase):
             elif api == 'from_causal_graph':
                 self.mutate_graph(src)
             else:
-                deep_mutate(src)
-                for x in (src if isinstance(src, tuple) else [src]):
-                    if isinstance(x, numpy.ndarray) and x.size:
-                        x[:] = 1 - x
-                    elif isinstance(x, dict):
-                        for v in x.values():
-                            if isinstance(v, numpy.ndarray) and v.size:
-                                v[:] = 1 - v
+                deep_mutate(src)          # (flips every array once, grows every list / dictionary / networkx graph)
         except Exception:  # noqa: BLE001
             pass
         if self._readout(h) != before:
